@@ -14,8 +14,11 @@ source, following `super().m(...)` and calls of helper methods `self._x()`), and
   [elif isinstance(self.transform, K2): self.transform = K2(...)]
   else: self.transform = K2(...)        (every branch rebuilds the class it tested for, and the
                                          else-branch the only remaining class)  -> .reinstall
-  anything else that stores to / deletes `.transform` or calls setattr(..., 'transform', ...)
-                                                                 -> .unrecognised
+  the same reached through private helpers of the class (also as factories: `self.transform = self._make(flag)`
+  with `flag = not isinstance(self.transform, K)`), local variables, conditional expressions: every method is
+  EVALUATED once per current parameterisation (there are two), following super() and self._helper() calls
+  anything else that stores to / deletes `.transform` or calls setattr(..., 'transform', ...), or a test whose value
+  cannot be determined around such a store                       -> .unrecognised
 
 The constructor is read the same way: which class `__init__` installs for which argument
 (`ratios_root_height is not None` -> ratio, else -> difference).
@@ -39,61 +42,52 @@ class Unrecognised(Exception):
     pass
 
 
+class _Return(Exception):
+    def __init__(self, value):
+        self.value = value
+
+
+UNKNOWN = ("unknown",)
+
+
 def _is_self_transform(e):
     return (isinstance(e, ast.Attribute) and e.attr == "transform"
             and isinstance(e.value, ast.Name) and e.value.id == "self")
 
 
-def _ctor_kind(call):
-    """value assigned to self.transform -> ('install', kind) | ('reinstall',)"""
-    if not isinstance(call, ast.Call):
-        raise Unrecognised("self.transform = " + ast.unparse(call))
-    f = call.func
-    if not (call.args and isinstance(call.args[0], ast.Name) and call.args[0].id == "self"):
-        raise Unrecognised("transform built for another tree: " + ast.unparse(call))
-    if isinstance(f, ast.Name) and f.id in KINDS:
-        return ("install", KINDS[f.id])
-    if isinstance(f, ast.Attribute) and f.attr in KINDS:
-        return ("install", KINDS[f.attr])
-    if (isinstance(f, ast.Call) and isinstance(f.func, ast.Name) and f.func.id == "type"
-            and len(f.args) == 1 and _is_self_transform(f.args[0])):
-        return ("reinstall",)
-    if isinstance(f, ast.Attribute) and f.attr == "__class__" and _is_self_transform(f.value):
-        return ("reinstall",)
-    raise Unrecognised("self.transform = " + ast.unparse(call))
+def _kind_name(k):
+    name = k.id if isinstance(k, ast.Name) else (k.attr if isinstance(k, ast.Attribute) else None)
+    return KINDS.get(name)
 
 
-def compose(a, b):
-    """effect of doing a then b"""
-    if a[0] == "unrecognised" or b[0] == "unrecognised":
-        return ("unrecognised",)
-    if b[0] == "keep":
-        return a
-    if b[0] == "install":
-        return b
-    # b == reinstall
-    if a[0] == "keep":
-        return b
-    return a
-
-
-def _isinstance_test(test):
-    """isinstance(self.transform, K) -> kind"""
-    if (isinstance(test, ast.Call) and isinstance(test.func, ast.Name) and test.func.id == "isinstance"
-            and len(test.args) == 2 and _is_self_transform(test.args[0])):
-        k = test.args[1]
-        name = k.id if isinstance(k, ast.Name) else (k.attr if isinstance(k, ast.Attribute) else None)
-        if name in KINDS:
-            return KINDS[name]
-    return None
+def _touches_transform(node):
+    for n in ast.walk(node):
+        if isinstance(n, ast.Attribute) and n.attr == "transform" and isinstance(n.ctx, (ast.Store, ast.Del)):
+            return True
+        if isinstance(n, ast.Call) and isinstance(n.func, ast.Name) and n.func.id in ("setattr", "delattr") and any(
+                isinstance(a, ast.Constant) and a.value == "transform" for a in n.args):
+            return True
+        if isinstance(n, ast.Return):
+            return True
+    return False
 
 
 class Reader:
+    """Concrete evaluation of a method body for ONE current parameterisation (`kind`): there are only two, so the
+    effect of a method on `self.transform` is obtained by running it once per kind. Followed: `super().m(...)`, helper
+    methods `self._x(...)` of the torchtree.evolution classes in the MRO (also as factories whose return value is
+    assigned), local variables, `isinstance(self.transform, K)`, `not/and/or`, `x is (not) None`, conditional
+    expressions, `type(self.transform)(self, …)`, `self.transform.__class__(self, …)`. A test whose value cannot be
+    determined and whose branches store to `.transform` (or return) is UNRECOGNISED."""
+
     def __init__(self, cls):
         self.cls = cls
         self.mro = cls.__mro__
         self.depth = 0
+        self.kind = None        # current parameterisation (None before __init__ installs one)
+        self.assigned = False
 
+    # ---- source access
     def func_ast(self, owner, name):
         fn = owner.__dict__[name]
         fn = getattr(fn, "__func__", fn)
@@ -104,123 +98,204 @@ class Reader:
         return node
 
     def resolve(self, name, after=None):
-        """class in the MRO (strictly after `after`) defining `name`"""
         seen = after is None
         for c in self.mro:
-            if seen and name in c.__dict__:
+            if seen and name in c.__dict__ and c.__module__.startswith("torchtree."):
                 return c
             if c is after:
                 seen = True
         return None
 
-    def method_action(self, name, after=None):
+    # ---- calls
+    def call_method(self, name, args, kwargs, after=None):
         owner = self.resolve(name, after)
         if owner is None:
-            return ("keep",)
+            return None
         self.depth += 1
         if self.depth > 12:
             raise Unrecognised("call chain too deep")
         try:
             fn = self.func_ast(owner, name)
-            return self.block(fn.body, owner)
+            params = [a.arg for a in fn.args.args][1:]  # drop self
+            env = {}
+            defaults = fn.args.defaults
+            for p_, d in zip(params[len(params) - len(defaults):], defaults):
+                env[p_] = d.value if isinstance(d, ast.Constant) else UNKNOWN
+            for p_, v in zip(params, args):
+                env[p_] = v
+            for k_, v in kwargs.items():
+                env[k_] = v
+            for p_ in params:
+                env.setdefault(p_, UNKNOWN)
+            try:
+                self.block(fn.body, owner, env)
+            except _Return as r:
+                return r.value
+            return None
         finally:
             self.depth -= 1
 
-    def block(self, stmts, owner):
-        act = ("keep",)
+    # ---- expressions
+    def ev(self, e, owner, env):
+        if isinstance(e, ast.Constant):
+            return e.value
+        if isinstance(e, ast.Name):
+            return env.get(e.id, UNKNOWN)
+        if _is_self_transform(e):
+            return ("tr", self.kind)
+        if isinstance(e, ast.UnaryOp) and isinstance(e.op, ast.Not):
+            v = self.ev(e.operand, owner, env)
+            return UNKNOWN if v is UNKNOWN or isinstance(v, tuple) else (not v)
+        if isinstance(e, ast.BoolOp):
+            vals = [self.ev(v, owner, env) for v in e.values]
+            if any(v is UNKNOWN or isinstance(v, tuple) for v in vals):
+                return UNKNOWN
+            return all(vals) if isinstance(e.op, ast.And) else any(vals)
+        if isinstance(e, ast.IfExp):
+            t = self.ev(e.test, owner, env)
+            if t is UNKNOWN or isinstance(t, tuple):
+                return UNKNOWN
+            return self.ev(e.body if t else e.orelse, owner, env)
+        if isinstance(e, ast.Compare) and len(e.ops) == 1 and isinstance(e.ops[0], (ast.Is, ast.IsNot)) \
+                and isinstance(e.comparators[0], ast.Constant) and e.comparators[0].value is None:
+            v = self.ev(e.left, owner, env)
+            if v is UNKNOWN:
+                return UNKNOWN
+            return (v is None) if isinstance(e.ops[0], ast.Is) else (v is not None)
+        if isinstance(e, ast.Call):
+            f = e.func
+            if isinstance(f, ast.Name) and f.id == "isinstance" and len(e.args) == 2:
+                v = self.ev(e.args[0], owner, env)
+                if isinstance(v, tuple) and v[0] == "tr" and v[1] is not None:
+                    ks = e.args[1].elts if isinstance(e.args[1], ast.Tuple) else [e.args[1]]
+                    names = [_kind_name(k) for k in ks]
+                    if all(n is not None for n in names):
+                        return v[1] in names
+                return UNKNOWN
+            # constructors of the two transforms, built for this tree
+            kn = _kind_name(f)
+            if kn is not None:
+                if not (e.args and isinstance(e.args[0], ast.Name) and e.args[0].id == "self"):
+                    raise Unrecognised("transform built for another tree: " + ast.unparse(e))
+                return ("tr", kn)
+            if (isinstance(f, ast.Call) and isinstance(f.func, ast.Name) and f.func.id == "type"
+                    and len(f.args) == 1) or (isinstance(f, ast.Attribute) and f.attr == "__class__"):
+                inner = f.args[0] if isinstance(f, ast.Call) else f.value
+                v = self.ev(inner, owner, env)
+                if isinstance(v, tuple) and v[0] == "tr" and v[1] is not None:
+                    return ("tr", v[1])
+                return UNKNOWN
+            if isinstance(f, ast.Attribute) and isinstance(f.value, ast.Name) and f.value.id == "self" and self.resolve(f.attr):
+                args = [self.ev(a, owner, env) for a in e.args]
+                kwargs = {k.arg: self.ev(k.value, owner, env) for k in e.keywords if k.arg}
+                r = self.call_method(f.attr, args, kwargs)
+                return UNKNOWN if r is None and False else r
+            if isinstance(f, ast.Attribute) and isinstance(f.value, ast.Call) and isinstance(f.value.func, ast.Name) \
+                    and f.value.func.id == "super":
+                args = [self.ev(a, owner, env) for a in e.args]
+                kwargs = {k.arg: self.ev(k.value, owner, env) for k in e.keywords if k.arg}
+                return self.call_method(f.attr, args, kwargs, after=owner)
+            # explicit base-class call: Base.method(self, ...)
+            if isinstance(f, ast.Attribute) and isinstance(f.value, ast.Name) and e.args \
+                    and isinstance(e.args[0], ast.Name) and e.args[0].id == "self":
+                base = next((c for c in self.mro if c.__name__ == f.value.id and f.attr in c.__dict__
+                             and c.__module__.startswith("torchtree.")), None)
+                if base is not None:
+                    saved = self.mro
+                    try:
+                        self.mro = tuple(c for c in saved[saved.index(base):])
+                        args = [self.ev(a, owner, env) for a in e.args[1:]]
+                        kwargs = {k.arg: self.ev(k.value, owner, env) for k in e.keywords if k.arg}
+                        return self.call_method(f.attr, args, kwargs)
+                    finally:
+                        self.mro = saved
+            return UNKNOWN
+        return UNKNOWN
+
+    # ---- statements
+    def block(self, stmts, owner, env):
         for st in stmts:
-            act = compose(act, self.stmt(st, owner))
-        return act
+            self.stmt(st, owner, env)
 
-    def stmt(self, st, owner):
-        # assignment to self.transform
-        if isinstance(st, ast.Assign) and any(_is_self_transform(t) for t in st.targets):
-            if len(st.targets) != 1:
-                raise Unrecognised(ast.unparse(st))
-            return _ctor_kind(st.value)
-        if isinstance(st, ast.If):
-            return self.if_action(st, owner)
-        # super().m(...) and self._helper(...)
-        act = ("keep",)
-        for call in [n for n in ast.walk(st) if isinstance(n, ast.Call)]:
-            f = call.func
-            if isinstance(f, ast.Attribute):
-                if (isinstance(f.value, ast.Call) and isinstance(f.value.func, ast.Name)
-                        and f.value.func.id == "super"):
-                    act = compose(act, self.method_action(f.attr, after=owner))
-                elif isinstance(f.value, ast.Name) and f.value.id == "self" and self.resolve(f.attr):
-                    tgt = self.resolve(f.attr)
-                    if tgt.__module__.startswith("torchtree.evolution"):
-                        act = compose(act, self.method_action(f.attr))
-            if isinstance(f, ast.Name) and f.id in ("setattr", "delattr"):
-                if any(isinstance(a, ast.Constant) and a.value == "transform" for a in call.args):
+    def stmt(self, st, owner, env):
+        if isinstance(st, ast.Return):
+            raise _Return(self.ev(st.value, owner, env) if st.value is not None else None)
+        if isinstance(st, (ast.Assign, ast.AnnAssign)):
+            targets = st.targets if isinstance(st, ast.Assign) else [st.target]
+            if any(_is_self_transform(t) for t in targets):
+                if len(targets) != 1 or st.value is None:
                     raise Unrecognised(ast.unparse(st))
-        # any other store / delete of a `.transform` attribute
-        for n in ast.walk(st):
-            if isinstance(n, ast.Attribute) and n.attr == "transform" and isinstance(n.ctx, (ast.Store, ast.Del)):
+                v = self.ev(st.value, owner, env)
+                if not (isinstance(v, tuple) and v[0] == "tr" and v[1] is not None):
+                    raise Unrecognised("self.transform = " + ast.unparse(st.value)[:80])
+                self.kind, self.assigned = v[1], True
+                return
+            if st.value is not None:
+                v = self.ev(st.value, owner, env)
+                for t in targets:
+                    if isinstance(t, ast.Name):
+                        env[t.id] = v
+                    elif _touches_transform(t):
+                        raise Unrecognised(ast.unparse(st)[:100])
+            return
+        if isinstance(st, ast.If):
+            t = self.ev(st.test, owner, env)
+            if t is UNKNOWN or isinstance(t, tuple):
+                if _touches_transform(st):
+                    raise Unrecognised("condition " + ast.unparse(st.test)[:80])
+                return
+            self.block(st.body if t else st.orelse, owner, env)
+            return
+        if isinstance(st, ast.Expr):
+            if isinstance(st.value, ast.Call):
+                self.ev(st.value, owner, env)
+            if _touches_transform(st):
                 raise Unrecognised(ast.unparse(st)[:100])
-        return act
+            return
+        if isinstance(st, (ast.Pass,)):
+            return
+        if _touches_transform(st):
+            raise Unrecognised(ast.unparse(st)[:100])
 
-    def if_action(self, st, owner):
-        """if/elif chain on isinstance(self.transform, K): every branch must rebuild K"""
-        mentions = any(isinstance(n, ast.Attribute) and n.attr == "transform" and isinstance(n.ctx, (ast.Store, ast.Del))
-                       for n in ast.walk(st))
-        if not mentions:
-            a = self.block(st.body, owner)
-            b = self.block(st.orelse, owner)
-            if a == b:
-                return a
-            raise Unrecognised("branches differ: " + ast.unparse(st.test))
-        remaining = set(KINDS.values())
-        cur = st
-        while True:
-            k = _isinstance_test(cur.test)
-            if k is None or k not in remaining:
-                raise Unrecognised("condition " + ast.unparse(cur.test))
-            a = self.block(cur.body, owner)
-            if a not in (("install", k), ("reinstall",)):
-                raise Unrecognised(f"branch for {k} does {a}")
-            remaining.discard(k)
-            if len(cur.orelse) == 1 and isinstance(cur.orelse[0], ast.If):
-                cur = cur.orelse[0]
-                continue
-            if cur.orelse:
-                a = self.block(cur.orelse, owner)
-                if len(remaining) == 1 and a in (("install", next(iter(remaining))), ("reinstall",)):
-                    remaining.clear()
-                elif not (len(remaining) == 0 and a == ("keep",)):
-                    raise Unrecognised(f"else branch does {a} with {sorted(remaining)} untested")
-            break
-        if remaining:
-            # kinds not tested keep the transform that was installed before the move
-            pass
-        return ("reinstall",)
+    # ---- effect of a whole method for one current kind
+    def effect(self, name, kind):
+        self.kind, self.assigned = kind, False
+        self.call_method(name, [UNKNOWN] * 0, {})
+        return self.kind, self.assigned
+
+
+def method_action(cls, name):
+    """DevAction of `cls.name` obtained by running it once per current parameterisation"""
+    kinds = sorted(set(KINDS.values()))
+    after, assigned = {}, False
+    for k in kinds:
+        r = Reader(cls)
+        after[k], a = r.effect(name, k)
+        assigned = assigned or a
+    if all(after[k] == k for k in kinds):
+        return ("reinstall",) if assigned else ("keep",)
+    if len(set(after.values())) == 1:
+        return ("install", next(iter(after.values())))
+    raise Unrecognised(f"{name} maps {after}")
 
 
 def init_kinds(cls):
-    """__init__: `if <arg> is not None: ...self.transform = K1(self) else: ...self.transform = K2(self)`
-    -> [(argument name given, kind)]"""
-    rd = Reader(cls)
-    fn = rd.func_ast(cls, "__init__")
+    """which parameterisation __init__ installs for which argument: __init__ is run with exactly one of its
+    parameter arguments given -> [(argument name given, kind)]"""
+    r = Reader(cls)
+    fn = r.func_ast(cls, "__init__")
+    args = [a.arg for a in fn.args.args]
+    cands = [a for a in args if a not in ("self", "id_", "tree", "taxa")]
     out = []
-    for st in fn.body:
-        if isinstance(st, ast.If) and any(_is_self_transform(t) for n in ast.walk(st) if isinstance(n, ast.Assign)
-                                          for t in n.targets):
-            t = st.test
-            if not (isinstance(t, ast.Compare) and isinstance(t.left, ast.Name) and len(t.ops) == 1
-                    and isinstance(t.ops[0], ast.IsNot) and isinstance(t.comparators[0], ast.Constant)
-                    and t.comparators[0].value is None):
-                raise Unrecognised("__init__ condition " + ast.unparse(t))
-            argname = t.left.id
-            args = [a.arg for a in fn.args.args]
-            others = [a for a in args if a not in ("self", "id_", "tree", "taxa", argname)]
-            a = rd.block(st.body, cls)
-            b = rd.block(st.orelse, cls)
-            if a[0] != "install" or b[0] != "install" or len(others) != 1:
-                raise Unrecognised(f"__init__ installs {a} / {b}")
-            out = [(argname, a[1]), (others[0], b[1])]
+    for given in cands:
+        rd = Reader(cls)
+        rd.kind, rd.assigned = None, False
+        rd.call_method("__init__", [], {a: ("given" if a == given else None) for a in cands} | {a: UNKNOWN for a in ("id_", "tree", "taxa")})
+        if rd.kind is None:
+            raise Unrecognised(f"__init__ with {given} installs no transform")
+        out.append((given, rd.kind))
     if not out:
-        raise Unrecognised("__init__ does not install a transform under an `is not None` test")
+        raise Unrecognised("__init__ has no parameter argument")
     return out
 
 
@@ -265,7 +340,7 @@ def translate(repo: Path):
                 notes.append(f"{c.__name__}.__init__: {e}")
             for m in METHODS:
                 try:
-                    act = Reader(c).method_action(m)
+                    act = method_action(c, m)
                 except (Unrecognised, OSError, TypeError, SyntaxError) as e:
                     act = ("unrecognised",)
                     ok = False
